@@ -107,7 +107,8 @@ def sk_estimator(name, seed=0, extra=None):
 def _sk_estimator(name, seed=0):
     from sklearn.ensemble import RandomForestClassifier
     from sklearn.gaussian_process import GaussianProcessRegressor
-    from sklearn.linear_model import BayesianRidge, LinearRegression, LogisticRegression, SGDClassifier, SGDRegressor
+    from sklearn.cross_decomposition import PLSRegression
+    from sklearn.linear_model import ARDRegression, BayesianRidge, LinearRegression, LogisticRegression, SGDClassifier, SGDRegressor
     from sklearn.naive_bayes import GaussianNB
     from sklearn.tree import DecisionTreeClassifier, DecisionTreeRegressor
 
@@ -124,6 +125,9 @@ def _sk_estimator(name, seed=0):
         "sgdr": lambda: SGDRegressor(random_state=seed, max_iter=50, tol=None),
         "gpr": lambda: GaussianProcessRegressor(random_state=seed),
         "bayridge": lambda: BayesianRidge(),
+        # regressors that cannot be fitted on a single sample (the wrapper's documented fall-back arises naturally)
+        "ard": lambda: ARDRegression(),
+        "pls": lambda: PLSRegression(n_components=1),
     }[name]()
 
 
@@ -328,9 +332,9 @@ def gen_reg_spec(g: SimRng, kind):
                 p.update(mu_0=g.pick([0, 1.5, 1.0e9]), kappa_0=g.pick([0.1, 1.0]), sigma_sq_0=g.pick([1.0, 0.25]), nu_0=g.pick([2.5, 5.0]))
         return {"kind": kind, "params": p}
     if kind == "skl_reg":
-        return {"kind": kind, "est": g.pick(["linreg", "dtr", "sgdr", "linreg"]), "est_seed": g.randrange(0, 50), "faulty": True, "params": p}
+        return {"kind": kind, "est": g.pick(["linreg", "dtr", "sgdr", "linreg", "ard", "pls"]), "est_seed": g.randrange(0, 50), "faulty": True, "params": p}
     if kind == "skl_normal":
-        return {"kind": kind, "est": g.pick(["gpr", "bayridge"]), "est_seed": g.randrange(0, 50), "faulty": True, "params": p}
+        return {"kind": kind, "est": g.pick(["gpr", "bayridge", "ard"]), "est_seed": g.randrange(0, 50), "faulty": True, "params": p}
     raise KeyError(kind)
 
 
@@ -497,6 +501,10 @@ class LifeCheckBase(Check):
             d = g.pick(dims)
             datasets.append(gen_dataset(g.fork(f"d{i}"), d, classes, task, na=na))
         queries = {str(d): gen_query(g.fork(f"q{d}"), d, classes, 1.0) for d in set(len(ds["X"][0]) for ds in datasets)}
+        if mode == "C15" and spec["kind"] in ("skl_reg", "skl_normal") and g.chance(0.2):
+            # integer-typed features (counts): legal input, kept integer by the wrapper's validation
+            for ds in datasets:
+                ds["int_X"] = True
         pf = supports_partial_fit(spec)
         ops = []
         n_ops = n_ops or g.pick([3, 5, 8, 12, 20] + ([30, 30] if self.tier == "thorough" else []))
@@ -564,6 +572,8 @@ class LifeCheckBase(Check):
     @staticmethod
     def apply_fit(est, op, ds, spec):
         X = np.array(ds["X"], dtype=float)
+        if ds.get("int_X"):
+            X = np.rint(X).astype(int)
         y = encode_missing(to_arr_y(ds["y"]), spec)
         w = None if ds.get("w") is None else np.array(ds["w"], dtype=float)
         _FAULT["armed"] = bool(op.get("fail"))
@@ -1168,7 +1178,7 @@ class C15Check(LifeCheckBase):
         "Distinct by (subject, wrapped estimator, probes, faults)."
     )
     fault_kinds = ["peer_fit_failed"]
-    probes_expected = ["fallback_prediction_used", "zero_labels", "one_label", "coherence_checked", "sample_y_checked", "std_checked"]
+    probes_expected = ["fallback_prediction_used", "zero_labels", "one_label", "coherence_checked", "sample_y_checked", "std_checked", "natural_fit_failure", "integer_features"]
     assumptions = [
         "NadarayaWatsonRegressor is only judged with at least one label (documented)",
         "std must be finite and non-negative when a proper prior (NIC: kappa_0, nu_0 > 0) or at least two labels are available",
@@ -1223,8 +1233,21 @@ class C15Check(LifeCheckBase):
             if op.get("fail"):
                 ctx.fault("peer_fit_failed")
             Xq = np.array(sc["queries"][str(d)], dtype=float) * ds.get("scale", 1.0)
+            if ds.get("int_X"):
+                Xq = np.rint(Xq).astype(int)
+                ctx.probe("integer_features")
             if spec["kind"] == "nwr" and nl == 0:
                 continue
+            natural = False
+            if spec["kind"] in ("skl_reg", "skl_normal") and not failed and nl > 0:
+                # the wrapped estimator refused the data on its own (e.g. needs two samples)
+                try:
+                    from sklearn.utils.validation import check_is_fitted as _cif
+
+                    _cif(est.estimator_)
+                except Exception:
+                    natural = True
+                    ctx.probe("natural_fit_failure")
             # ---- fall-back clause
             if spec["kind"] in ("skl_reg", "skl_normal"):
                 try:
@@ -1233,7 +1256,7 @@ class C15Check(LifeCheckBase):
                     ctx.violate("predict-raises-instead-of-fallback", subj, f"op {t}: predict raised {type(e).__name__}: {str(e)[:120]} after {op['op']} on {nl} labels (injected failure: {failed})", dict(cond, exc=type(e).__name__))
                     break
                 ctx.log.add("predict", mu)
-                if failed or nl == 0:
+                if failed or nl == 0 or natural:
                     ctx.probe("fallback_prediction_used")
                     want = float(np.mean(lab)) if nl > 0 else 0.0
                     if mu.shape != (len(Xq),) or not np.allclose(mu, want, rtol=1e-9, atol=1e-12):
